@@ -314,6 +314,7 @@ def obligations(tier):
     for op in ('add', 'packet'):
       cases.append(dict(npre=2, op=op, kinds=['all', 'p']))
     cases.append(dict(npre=2, op='delete', kinds=['p']))
+    cases.append(dict(npre=2, op='sweep', kinds=['p']))          # two entries can expire in the same sweep
   if thorough:
     for op in ops:
       if op == 'badcmd': continue
